@@ -19,6 +19,7 @@ import (
 	"time"
 
 	"github.com/99designs/gqlgen/graphql/handler"
+	"github.com/99designs/gqlgen/graphql/handler/apollofederatedtracingv1"
 	"github.com/99designs/gqlgen/graphql/handler/transport"
 	"github.com/gorilla/websocket"
 
@@ -137,6 +138,65 @@ func scalarFaults(name string, env *univ.Env, srv *drive.Server, cr *childResult
 	}
 	count("fault_marshal_panic_post", 1)
 	cr.Distinct = append(cr.Distinct, name+"|scalar|marshal_panic_post")
+
+	// --- with the Apollo federated tracer (ftv1) recording the operation: user-code failures are
+	// contained exactly as without it - several failures in one response (some at positions the
+	// tracer has no node for, like argument errors), sibling resolvers running concurrently
+	{
+		ht := handler.New(env.ES)
+		ht.AddTransport(transport.POST{})
+		ht.Use(&apollofederatedtracingv1.Tracer{})
+		var rec atomic.Int64
+		ht.SetRecoverFunc(func(ctx context.Context, r any) error { rec.Add(1); return fmt.Errorf("PANIC:%v", r) })
+		tst := httptest.NewServer(http.HandlerFunc(func(rw http.ResponseWriter, r *http.Request) {
+			r = r.WithContext(univ.WithRun(r.Context(), &univ.Run{Plan: plan}))
+			ht.ServeHTTP(rw, r)
+		}))
+		tpost := func(q string) (int, string, error) {
+			b, _ := json.Marshal(map[string]any{"query": q})
+			req, _ := http.NewRequest("POST", tst.URL, bytes.NewReader(b))
+			req.Header.Set("Content-Type", "application/json")
+			req.Header.Set("apollo-federation-include-trace", "ftv1")
+			resp, err := (&http.Client{Timeout: 15 * time.Second}).Do(req)
+			if err != nil {
+				return 0, "", err
+			}
+			defer resp.Body.Close()
+			body, _ := io.ReadAll(resp.Body)
+			return resp.StatusCode, string(body), nil
+		}
+		for _, q := range []string{
+			`{ a: xboom(b: "uerr:1") b: xboom(b: "uerr:2") scalar }`,
+			`{ a: xboom(b: "upanic:1") b: xboom(b: "uerr:2") c: xboom(b: "ok") }`,
+		} {
+			status, body, err := tpost(q)
+			cr.Evals++
+			v, perr := sjson.Parse([]byte(body))
+			switch {
+			case err != nil:
+				viol("with the ftv1 tracer installed a request with several failing arguments never ended", map[string]any{"query": q, "error": err.Error()})
+			case perr != nil || v.Kind != sjson.Object || v.Get("errors") == nil || len(v.Get("errors").Arr) != 2:
+				viol(fmt.Sprintf("with the ftv1 tracer installed: expected two errors for two failing arguments (status %d)", status), body)
+			}
+			count("fault_with_ftv1_tracer_several_failures", 1)
+		}
+		for i := 0; i < 12; i++ {
+			status, body, err := tpost(`{ an { vid rs ri rsn bo { vid rs } bn { vid rs } rbl { vid rs } } as(n: 3) { vid rs ri rbl { vid rs } } scalar }`)
+			cr.Evals++
+			if err != nil || status != 200 || !strings.Contains(body, `"ftv1"`) {
+				viol(fmt.Sprintf("with the ftv1 tracer installed a query with concurrently resolved siblings was not answered with data and a trace (status %d, %v)", status, err), body)
+				break
+			}
+			count("ftv1_traced_concurrent_sibling_queries", 1)
+		}
+		cr.Distinct = append(cr.Distinct, name+"|scalar|ftv1")
+		done := make(chan struct{})
+		go func() { tst.CloseClientConnections(); tst.Close(); close(done) }()
+		select {
+		case <-done:
+		case <-time.After(5 * time.Second):
+		}
+	}
 
 	// --- a value that serializes to something that is not JSON: the failure happens while the
 	// transport encodes the response (for the streaming transports inside their serialised write
